@@ -3,7 +3,7 @@
    (method, url), headers), is Model/Head.v's parse_head for every head; and the literals of the two line parsers
    (the field-value byte test, the first character demanded of the target, the protocol text) are the model's. *)
 From Coq Require Import List NArith Bool.
-From SV Require Import Base.Bytes Base.SrcAst Model.Headers Model.Head Generated.SourceParams.
+From SV Require Import Base.Bytes Base.IO Base.SrcAst Model.Headers Model.Head Generated.SourceParams.
 Import ListNotations.
 Open Scope N_scope.
 
@@ -107,3 +107,80 @@ Proof.
   rewrite for_lines_spec. destruct (parse_header_lines true true lines) as [hs|e|]; reflexivity.
 Qed.
 End Interp.
+
+(* ---- read_http_head: the read loop; read_head_bytes: the delimiter ---- *)
+Lemma read_head_translated : src_problems_read_head = 0%nat.
+Proof. reflexivity. Qed.
+
+(* try_read_gen searches for crlf2 and consumes n + 4 bytes: the source's literals *)
+Lemma head_delim_tie : src_head_delim = crlf2 /\ src_head_delim_consumed = N.of_nat (length crlf2).
+Proof. split; reflexivity. Qed.
+
+Definition http_error_of (e : rh_err) : http_error :=
+  match e with
+  | RHEHeadTooLong => E_HeadTooLong
+  | RHEDisconnected => E_Disconnected
+  | RHETruncated => E_Truncated
+  | RHEOther => E_MalformedCookieHeader          (* no such statement in the model: the tie fails *)
+  end.
+
+Section ReadLoopInterp.
+Variable url_parse : bytes -> option (bytes * option bytes).
+Variable cap : nat.
+
+Inductive rflow := RRet (o : outcome) | RGo (b : fbuf) (s : instream).
+
+Definition eval_rh_stmt (fuel : nat) (st : rh_stmt) (b : fbuf) (s : instream) : rflow :=
+  match st with
+  | RHTryRead =>
+      match try_read url_parse b with
+      | (Ok h, b') => RRet (ROk h b' s)
+      | (Panic, _) => RRet RPanic
+      | (Err HE_Truncated, b') => RGo b' s
+      | (Err e, b') => RRet (RErr (of_head_error e) b' s)
+      end
+  | RHReturnIfFull e => if (fb_writable cap b =? 0)%nat then RRet (RErr (http_error_of e) b s) else RGo b s
+  | RHRead e_empty e_some =>
+      match fuel with
+      | O => RRet ROutOfFuel                      (* the model's bound on the number of reads *)
+      | S _ =>
+          let '(got, s') := next_read (fb_writable cap b) s in
+          match got with
+          | [] => match fb_data b with
+                  | [] => RRet (RErr (http_error_of e_empty) b s')
+                  | _ => RRet (RErr (http_error_of e_some) b s')
+                  end
+          | _ => match fb_wrote cap b got with
+                 | Some b'' => RGo b'' s'
+                 | None => RRet RPanic
+                 end
+          end
+      end
+  end.
+Fixpoint eval_rh_body (fuel : nat) (l : list rh_stmt) (b : fbuf) (s : instream) : rflow :=
+  match l with
+  | [] => RGo b s
+  | st :: rest => match eval_rh_stmt fuel st b s with RRet o => RRet o | RGo b' s' => eval_rh_body fuel rest b' s' end
+  end.
+(* loop { body }: one unit of fuel per completed iteration *)
+Fixpoint eval_read_http_head (body : list rh_stmt) (fuel : nat) (b : fbuf) (s : instream) : outcome :=
+  match eval_rh_body fuel body b s with
+  | RRet o => o
+  | RGo b' s' => match fuel with O => ROutOfFuel | S f => eval_read_http_head body f b' s' end
+  end.
+
+Theorem read_http_head_tie : forall fuel b s,
+  eval_read_http_head src_read_http_head fuel b s = read_head url_parse cap fuel b s.
+Proof.
+  unfold read_head, try_read.
+  induction fuel as [|f IH]; intros b s; cbn [eval_read_http_head read_head_gen]; unfold src_read_http_head;
+    cbn [eval_rh_body eval_rh_stmt]; unfold try_read;
+    destruct (try_read_gen url_parse true true b) as [[h|e|] b']; try reflexivity;
+    destruct e; try reflexivity; cbn [eval_rh_body eval_rh_stmt http_error_of];
+    destruct (fb_writable cap b' =? 0)%nat; try reflexivity; cbn [eval_rh_body eval_rh_stmt http_error_of].
+  destruct (next_read (fb_writable cap b') s) as [got s'].
+  destruct got as [|g got]; [destruct (fb_data b'); reflexivity|].
+  destruct (fb_wrote cap b' (g :: got)) as [b''|]; [|reflexivity].
+  cbn [eval_rh_body]. apply IH.
+Qed.
+End ReadLoopInterp.
